@@ -819,9 +819,13 @@ class ManifestRecursiveLoader:
                         # the renamed file is signed as appropriate)
                         if mpath == self.top_level_manifest_filename:
                             self.top_level_manifest_filename = new_mpath
-                        self.loaded_manifests[new_mpath] = m
+                        # (rename the key in place: the load order
+                        # decides the order of Manifests sharing
+                        # a directory in later saves)
+                        self.loaded_manifests = {
+                            (new_mpath if k == mpath else k): v
+                            for k, v in self.loaded_manifests.items()}
                         self.save_manifest(new_mpath)
-                        del self.loaded_manifests[mpath]
                         os.unlink(os.path.join(self.root_directory,
                                                mpath))
                         renamed_manifests[mpath] = new_mpath
